@@ -159,524 +159,121 @@ Proof.
   - intros ->. apply E0. reflexivity.
 Qed.
 
-(* ================= iterating the real loop body over the TCP chunks ================= *)
-(* the part of htp_connp_req_data before the for(;;): a fresh chunk d *)
-Definition bd_req_begin (d : bytes) (c : connp) : connp :=
-  let c := rq_set_in (fun k => k <| k_data := Some d |> <| k_len := length d |> <| k_read := O |> <| k_consume := O |>
-                                 <| k_receiver := O |>) c in
-  let c := c <| c_in_chunk_count ::= S |> <| c_in_data_counter ::= Z.add (Z.of_nat (length d)) |> in
-  if c_out_status c =? c_HTP_STREAM_DATA_OTHER then c <| c_out_status := c_HTP_STREAM_DATA |> else c.
-
-(* configurations (parser, TCP chunks still to come): a pass of the loop body that goes round again, or a return with
-   HTP_STREAM_DATA followed by the next call of htp_connp_req_data *)
-Inductive bd_rq_reach : connp -> list bytes -> connp -> list bytes -> Prop :=
-| bd_rr_refl c rem : bd_rq_reach c rem c rem
-| bd_rr_iter c c1 rem c' rem' :
-    rq_iter cb g false c = inr c1 -> bd_rq_reach c1 rem c' rem' -> bd_rq_reach c rem c' rem'
-| bd_rr_next c c1 d rem c' rem' :
-    rq_iter cb g false c = inl (c1, c_HTP_STREAM_DATA) -> bd_rq_reach (bd_req_begin d c1) rem c' rem' ->
-    bd_rq_reach c (d :: rem) c' rem'.
-
-Lemma bd_rq_reach_trans a ra b rb c rc : bd_rq_reach a ra b rb -> bd_rq_reach b rb c rc -> bd_rq_reach a ra c rc.
-Proof. intros H1 H2. induction H1; [exact H2|eapply bd_rr_iter; eauto|eapply bd_rr_next; eauto]. Qed.
-
-(* htp_req_handle_state_change when the new state is not REQ_HEADERS *)
-Definition bd_hsc (c : connp) : connp :=
-  if match c_in_state_previous c with Some s => req_state_eqb s (c_in_state c) | None => false end then c
-  else c <| c_in_state_previous := Some (c_in_state c) |>.
-Lemma bd_hsc_spec c : req_state_eqb (c_in_state c) REQ_HEADERS = false -> req_handle_state_change cb c = (ST_OK, bd_hsc c).
-Proof.
-  intros H. unfold req_handle_state_change, bd_hsc. rewrite H.
-  destruct (c_in_state_previous c) as [s|]; [destruct (req_state_eqb s (c_in_state c))|]; reflexivity.
-Qed.
-
-Definition bd_body_state (s : req_state) : bool :=
-  match s with REQ_BODY_IDENTITY | REQ_BODY_CHUNKED_LENGTH | REQ_BODY_CHUNKED_DATA | REQ_BODY_CHUNKED_DATA_END => true | _ => false end.
-
-Lemma bd_rq_iter_ok c c' :
-  rq_state_fn cb g (c_in_state c) c = (ST_OK, c') -> (c_in_status c' =? c_HTP_STREAM_TUNNEL) = false ->
-  req_state_eqb (c_in_state c') REQ_HEADERS = false ->
-  rq_iter cb g false c = inr (bd_hsc c').
-Proof. intros H1 H2 H3. unfold rq_iter. rewrite H1, H2, (bd_hsc_spec _ H3). reflexivity. Qed.
-Lemma bd_rq_iter_data c c' :
-  rq_state_fn cb g (c_in_state c) c = (ST_DATA, c') -> k_receiver_hook (c_in c') = None ->
-  rq_iter cb g false c = inl (c' <| c_in_status := c_HTP_STREAM_DATA |>, c_HTP_STREAM_DATA).
-Proof. intros H1 H2. unfold rq_iter. rewrite H1. unfold rq_exit, req_receiver_send_data. rewrite H2. reflexivity. Qed.
-
+(* ---- the same steps with the result ABSTRACT (what the induction over the TCP chunks uses) ---- *)
 Definition bd_rq_clean (c : connp) : Prop := k_consume (c_in c) = k_read (c_in c) /\ k_buf (c_in c) = None.
-
-(* invariants under the bookkeeping steps *)
-Lemma bd_inv_hsc i c : bd_rq_inv i c -> bd_rq_inv i (bd_hsc c).
+(* everything the invariant, the position and the observations depend on *)
+Definition bd_rq_eqv (a b : connp) : Prop :=
+  c_in a = c_in b /\ c_in_tx a = c_in_tx b /\ c_txs a = c_txs b /\ c_txs_shifted a = c_txs_shifted b /\
+  c_in_status a = c_in_status b /\ c_events a = c_events b.
+Lemma bd_eqv_refl a : bd_rq_eqv a a. Proof. repeat split. Qed.
+Lemma bd_eqv_slot a b i : bd_rq_eqv a b -> tx_slot b i = tx_slot a i.
+Proof. intros (_ & _ & A & B & _). symmetry. apply bd_slot_ext; assumption. Qed.
+Lemma bd_eqv_inv a b i : bd_rq_eqv a b -> bd_rq_inv i a -> bd_rq_inv i b.
 Proof.
-  intros [A B C D E F]. unfold bd_hsc.
-  destruct (c_in_state_previous c) as [s|]; [destruct (req_state_eqb s (c_in_state c))|]; constructor; assumption.
+  intros E [A (t & B1 & B2) C D F G]. pose proof (bd_eqv_slot a b i E) as Hs. destruct E as (E1 & E2 & E3 & E4 & E5 & E6).
+  constructor; rewrite <- ?E1, <- ?E2, <- ?E5; try assumption. exists t. rewrite Hs. auto.
 Qed.
-Lemma bd_inv_status i c : bd_rq_inv i c -> bd_rq_inv i (c <| c_in_status := c_HTP_STREAM_DATA |>).
-Proof. intros [A B C D E F]. constructor; try assumption. reflexivity. Qed.
-Lemma bd_inv_begin i d c : bd_rq_inv i c -> bd_rq_inv i (bd_req_begin d c).
-Proof.
-  intros [A (t & B1 & B2) C D E F]. unfold bd_req_begin. cbv zeta.
-  match goal with |- context [if ?b then _ else _] => destruct b end;
-    (constructor; try assumption; [exists t; split; [erewrite bd_slot_ext; [exact B1|reflexivity|reflexivity]|exact B2]|
-     exists d; cbn; repeat split; lia]).
-Qed.
-Lemma bd_begin_rest d c : bd_rq_rest (bd_req_begin d c) = d.
-Proof. unfold bd_req_begin. cbv zeta. match goal with |- context [if ?b then _ else _] => destruct b end; reflexivity. Qed.
-Lemma bd_begin_clean d c : k_buf (c_in c) = None -> bd_rq_clean (bd_req_begin d c).
-Proof. intros H. unfold bd_req_begin. cbv zeta. match goal with |- context [if ?b then _ else _] => destruct b end; split; cbn; auto. Qed.
-Lemma bd_begin_misc d c :
-  c_events (bd_req_begin d c) = c_events c /\ c_in_state (bd_req_begin d c) = c_in_state c /\
-  c_in_body_data_left (bd_req_begin d c) = c_in_body_data_left c /\ c_in_chunked_length (bd_req_begin d c) = c_in_chunked_length c /\
-  k_buf (c_in (bd_req_begin d c)) = k_buf (c_in c) /\ (forall i, tx_slot (bd_req_begin d c) i = tx_slot c i).
-Proof.
-  unfold bd_req_begin. cbv zeta. match goal with |- context [if ?b then _ else _] => destruct b end;
-    repeat split; intros; apply bd_slot_ext; reflexivity.
-Qed.
+Lemma bd_eqv_rest a b : bd_rq_eqv a b -> bd_rq_rest b = bd_rq_rest a.
+Proof. intros (E1 & _). unfold bd_rq_rest. rewrite E1. reflexivity. Qed.
+Lemma bd_eqv_clean a b : bd_rq_eqv a b -> bd_rq_clean a -> bd_rq_clean b.
+Proof. intros (E1 & _). unfold bd_rq_clean. rewrite E1. auto. Qed.
+Lemma bd_eqv_events a b : bd_rq_eqv a b -> c_events b = c_events a.
+Proof. intros (_ & _ & _ & _ & _ & E). auto. Qed.
 
-Lemma bd_delivered_app h a b : bd_delivered h (a ++ b) = bd_delivered h b ++ bd_delivered h a.
-Proof. unfold bd_delivered, bd_evs. rewrite filter_app, rev_app_distr, map_app, concat_app. reflexivity. Qed.
-Lemma bd_evs_app h a b : bd_evs h (a ++ b) = bd_evs h a ++ bd_evs h b.
-Proof. apply filter_app. Qed.
-
-Lemma bd_app_prefix {B} (a b x y : list B) : a ++ x = b ++ y -> (length a <= length b)%nat -> exists b', b = a ++ b' /\ x = b' ++ y.
-Proof.
-  revert b. induction a as [|h a IH]; intros b H L; [exists b; split; [reflexivity|exact H]|].
-  destruct b as [|h' b]; [cbn in L; lia|]. cbn in H. inversion H; subst h'. destruct (IH b H2) as (b' & E1 & E2); [cbn in L; lia|].
-  exists b'. split; [cbn; rewrite E1; reflexivity|exact E2].
-Qed.
-
-(* what one segment of the body does: reaches c' / rem', delivering `payload` and adding dmsg to request_message_len *)
-Record bd_rq_seg (i : nat) (c : connp) (rem : list bytes) (c' : connp) (rem' : list bytes) (payload : bytes) (dmsg : Z) : Prop := mk_bd_rq_seg {
-  sg_reach : bd_rq_reach c rem c' rem';
-  sg_inv : bd_rq_inv i c';
-  sg_clean : bd_rq_clean c';
-  sg_rem : Forall (fun d => d <> []) rem';
-  sg_events : exists evs, c_events c' = evs ++ c_events c /\ bd_delivered H_REQUEST_BODY_DATA evs = payload /\
-                          bd_evs H_REQUEST_BODY_DATA evs = evs;
-  sg_lens : forall t, tx_slot c i = Some t ->
-            exists t', tx_slot c' i = Some t' /\
-                       t_request_entity_len t' = t_request_entity_len t + Z.of_nat (length payload) /\
-                       t_request_message_len t' = t_request_message_len t + dmsg
+Record bd_rq_stepped (i : nat) (t : tx) (dd : bytes) (c c' : connp) : Prop := mk_bd_rq_stepped {
+  sp_inv : bd_rq_inv i c';
+  sp_rest : forall rest, bd_rq_rest c = dd ++ rest -> bd_rq_rest c' = rest;
+  sp_clean : bd_rq_clean c -> bd_rq_clean c';
+  sp_events : c_events c' = mkev H_REQUEST_BODY_DATA i (Some dd) false None :: c_events c;
+  sp_slot : tx_slot c' i = Some (t <| t_request_entity_len ::= Z.add (Z.of_nat (length dd)) |>
+                                   <| t_request_message_len ::= Z.add (Z.of_nat (length dd)) |>)
 }.
+Lemma bd_stepped_eqv i t dd c c' c'' : bd_rq_eqv c' c'' -> bd_rq_stepped i t dd c c' -> bd_rq_stepped i t dd c c''.
+Proof.
+  intros E [A B C D F]. constructor.
+  - eapply bd_eqv_inv; eauto.
+  - intros rest H. rewrite (bd_eqv_rest _ _ E). auto.
+  - intros H. eapply bd_eqv_clean; eauto.
+  - rewrite (bd_eqv_events _ _ E). exact D.
+  - rewrite (bd_eqv_slot _ _ i E). exact F.
+Qed.
+Lemma bd_rq_deliver_stepped i t dd rest c :
+  bd_rq_inv i c -> tx_slot c i = Some t -> bd_rq_rest c = dd ++ rest -> bd_rq_stepped i t dd c (bd_rq_deliver i t dd c).
+Proof.
+  intros Inv Hl Hr. destruct (bd_rq_deliver_inv i t dd rest c Inv Hl Hr) as (I1 & R1). constructor.
+  - exact I1.
+  - intros rest' H. rewrite Hr in H. apply app_inv_head in H. subst rest'. exact R1.
+  - intros (A & B). split; rewrite bd_rq_deliver_in; cbn; [lia|exact B].
+  - reflexivity.
+  - apply bd_rq_deliver_slot. exact Hl.
+Qed.
+(* field-setter frames, on an abstract parser *)
+Lemma bd_eqv_set_left c f : bd_rq_eqv c (c <| c_in_body_data_left ::= f |>). Proof. repeat split. Qed.
+Lemma bd_eqv_set_chunked c f : bd_rq_eqv c (c <| c_in_chunked_length ::= f |>). Proof. repeat split. Qed.
+Lemma bd_eqv_set_state c s : bd_rq_eqv c (c <| c_in_state := s |>). Proof. repeat split. Qed.
+Lemma bd_eqv_trans a b c : bd_rq_eqv a b -> bd_rq_eqv b c -> bd_rq_eqv a c.
+Proof. unfold bd_rq_eqv. intuition congruence. Qed.
 
-Lemma bd_rq_seg_trans i c0 r0 c1 r1 c2 r2 p1 m1 p2 m2 :
-  bd_rq_inv i c0 ->
-  bd_rq_seg i c0 r0 c1 r1 p1 m1 -> bd_rq_seg i c1 r1 c2 r2 p2 m2 -> bd_rq_seg i c0 r0 c2 r2 (p1 ++ p2) (m1 + m2).
+Lemma bd_rq_identity_step_abs i t c :
+  bd_rq_inv i c -> tx_slot c i = Some t -> 0 < c_in_body_data_left c ->
+  let n := c_in_body_data_left c in
+  let dd := firstn (Z.to_nat n) (bd_rq_rest c) in
+  (dd = [] -> REQ_BODY_IDENTITY_fn cb c = (ST_DATA, c)) /\
+  (dd <> [] -> exists c',
+     REQ_BODY_IDENTITY_fn cb c = ((if n - Z.of_nat (length dd) =? 0 then ST_OK else ST_DATA), c') /\
+     bd_rq_stepped i t dd c c' /\ c_in_body_data_left c' = n - Z.of_nat (length dd) /\
+     c_in_state c' = (if n - Z.of_nat (length dd) =? 0 then REQ_FINALIZE else c_in_state c) /\
+     c_in_chunked_length c' = c_in_chunked_length c).
 Proof.
-  intros I0 [A1 B1 C1 D1 (e1 & E1 & F1 & G1) H1] [A2 B2 C2 D2 (e2 & E2 & F2 & G2) H2].
-  constructor; auto.
-  - eapply bd_rq_reach_trans; eauto.
-  - exists (e2 ++ e1). split; [rewrite E2, E1; apply app_assoc|]. split; [rewrite bd_delivered_app, F1, F2; reflexivity|].
-    rewrite bd_evs_app, G1, G2. reflexivity.
-  - intros t Ht. destruct (H1 _ Ht) as (t1 & T1 & X1 & Y1). destruct (H2 _ T1) as (t2 & T2 & X2 & Y2).
-    exists t2. split; [exact T2|]. rewrite X2, X1, Y2, Y1, app_length, Nat2Z.inj_add. split; lia.
+  intros Inv Hl Hn n dd. pose proof (bd_rq_identity_step i t c Inv Hl Hn) as H. cbv zeta in H. fold n in H. fold dd in H.
+  split.
+  - intros E. rewrite E in H. exact H.
+  - intros E. assert (E0 : (length dd =? 0)%nat = false) by (apply Nat.eqb_neq; destruct dd; [congruence|discriminate]).
+    rewrite E0 in H.
+    assert (Hst : bd_rq_stepped i t dd c (bd_rq_deliver i t dd c)).
+    { apply (bd_rq_deliver_stepped i t dd (skipn (Z.to_nat n) (bd_rq_rest c))); auto. symmetry. apply firstn_skipn. }
+    set (X := bd_rq_deliver i t dd c) in *.
+    assert (HX : c_in_body_data_left X = n /\ c_in_state X = c_in_state c /\ c_in_chunked_length X = c_in_chunked_length c) by (repeat split).
+    clearbody X. destruct HX as (X1 & X2 & X3).
+    destruct (n - Z.of_nat (length dd) =? 0); eexists; (split; [exact H|]); (split; [|split; [|split]]).
+    + eapply bd_stepped_eqv; [|exact Hst]. eapply bd_eqv_trans; [apply bd_eqv_set_left|apply bd_eqv_set_state].
+    + cbn. rewrite X1. reflexivity.
+    + reflexivity.
+    + cbn. exact X3.
+    + eapply bd_stepped_eqv; [|exact Hst]. apply bd_eqv_set_left.
+    + cbn. rewrite X1. reflexivity.
+    + cbn. exact X2.
+    + cbn. exact X3.
 Qed.
-
-(* ================= identity body: REQ_BODY_IDENTITY fed any chunking of body ++ rest ================= *)
-Lemma bd_rq_identity_seg i : forall rem c body rest,
-  bd_rq_inv i c -> bd_rq_clean c -> c_in_state c = REQ_BODY_IDENTITY ->
-  c_in_body_data_left c = Z.of_nat (length body) -> body <> [] ->
-  Forall (fun d => d <> []) rem ->
-  bd_rq_rest c ++ concat rem = body ++ rest ->
-  exists c' rem',
-    bd_rq_seg i c rem c' rem' body (Z.of_nat (length body)) /\
-    c_in_state c' = REQ_FINALIZE /\ c_in_body_data_left c' = 0 /\
-    bd_rq_rest c' ++ concat rem' = rest /\
-    c_in_chunked_length c' = c_in_chunked_length c.
+Lemma bd_rq_chunked_data_step_abs i t c :
+  bd_rq_inv i c -> tx_slot c i = Some t -> 0 < c_in_chunked_length c ->
+  let n := c_in_chunked_length c in
+  let dd := firstn (Z.to_nat n) (bd_rq_rest c) in
+  (dd = [] -> REQ_BODY_CHUNKED_DATA_fn cb c = (ST_DATA, c)) /\
+  (dd <> [] -> exists c',
+     REQ_BODY_CHUNKED_DATA_fn cb c = ((if n - Z.of_nat (length dd) =? 0 then ST_OK else ST_DATA), c') /\
+     bd_rq_stepped i t dd c c' /\ c_in_chunked_length c' = n - Z.of_nat (length dd) /\
+     c_in_state c' = (if n - Z.of_nat (length dd) =? 0 then REQ_BODY_CHUNKED_DATA_END else c_in_state c) /\
+     c_in_body_data_left c' = c_in_body_data_left c).
 Proof.
-  induction rem as [|d' rem IH]; intros c body rest Inv Cl Hs Hleft Hne Hrem Hw.
-  all: assert (Hpos : 0 < c_in_body_data_left c) by (rewrite Hleft; destruct body; [congruence|cbn; lia]).
-  all: destruct (bq_live _ _ Inv) as (t & Hl & Hh).
-  all: pose proof (bd_rq_identity_step i t c Inv Hl Hpos) as Hstep; cbv zeta in Hstep; rewrite Hleft, Nat2Z.id in Hstep.
-  all: set (dd := firstn (length body) (bd_rq_rest c)) in *.
-  all: assert (Hfn : rq_state_fn cb g (c_in_state c) c = REQ_BODY_IDENTITY_fn cb c) by (rewrite Hs; reflexivity).
-  - (* last TCP chunk: the body must end inside it *)
-    cbn [concat] in Hw. rewrite app_nil_r in Hw.
-    assert (Hdd : dd = body) by (subst dd; rewrite Hw, firstn_app, Nat.sub_diag, firstn_all; cbn; apply app_nil_r).
-    rewrite Hdd in Hstep.
-    destruct (length body =? 0)%nat eqn:E0; [apply Nat.eqb_eq in E0; destruct body; [congruence|discriminate]|].
-    rewrite Z.sub_diag in Hstep. cbn [Z.eqb] in Hstep.
-    destruct (bd_rq_deliver_inv i t body rest c Inv Hl Hw) as (Inv1 & Rest1).
-    eexists. exists []. split; [|split; [|split; [|split]]].
-    + constructor.
-      * eapply bd_rr_iter; [|apply bd_rr_refl]. apply bd_rq_iter_ok; [rewrite Hfn; exact Hstep| |reflexivity].
-        cbn. apply (bq_status _ _ Inv).
-      * apply bd_inv_hsc. destruct Inv1 as [A B C D E F]. constructor; assumption.
-      * destruct Cl as [Cl1 Cl2]. unfold bd_hsc. cbn [c_in_state c_in_state_previous set].
-        match goal with |- bd_rq_clean (if ?b then _ else _) => destruct b end; split; cbn; try lia; exact Cl2.
-      * constructor.
-      * exists [mkev H_REQUEST_BODY_DATA i (Some body) false None]. unfold bd_hsc. cbn [c_in_state c_in_state_previous set].
-        match goal with |- context [if ?b then _ else _] => destruct b end;
-          (split; [reflexivity|split; [cbn; apply app_nil_r|reflexivity]]).
-      * intros t0 Ht0. rewrite Hl in Ht0. inversion Ht0; subst t0.
-        eexists. split.
-        { unfold bd_hsc. cbn [c_in_state c_in_state_previous set].
-          match goal with |- context [if ?b then _ else _] => destruct b end;
-            (erewrite bd_slot_ext; [apply (bd_rq_deliver_slot i t body c Hl)|reflexivity|reflexivity]). }
-        cbn. split; lia.
-    + unfold bd_hsc. cbn [c_in_state c_in_state_previous set]. match goal with |- context [if ?b then _ else _] => destruct b end; reflexivity.
-    + unfold bd_hsc. cbn [c_in_state c_in_state_previous set]. match goal with |- context [if ?b then _ else _] => destruct b end; cbn; rewrite Hleft; lia.
-    + cbn [concat]. rewrite app_nil_r. rewrite <- Rest1. unfold bd_hsc. cbn [c_in_state c_in_state_previous set].
-      match goal with |- context [if ?b then _ else _] => destruct b end; reflexivity.
-    + unfold bd_hsc. cbn [c_in_state c_in_state_previous set]. match goal with |- context [if ?b then _ else _] => destruct b end; reflexivity.
-  - inversion Hrem as [|? ? Hd' Hrem']; subst.
-    destruct (Nat.le_gt_cases (length body) (length (bd_rq_rest c))) as [Hle|Hgt].
-    + (* the body ends inside the current chunk *)
-      assert (Hdd : dd = body).
-      { subst dd. assert (firstn (length body) (bd_rq_rest c ++ concat (d' :: rem)) = firstn (length body) (body ++ rest)) by (rewrite Hw; reflexivity).
-        rewrite firstn_app in H. replace (length body - length (bd_rq_rest c))%nat with 0%nat in H by lia. cbn [firstn] in H. rewrite app_nil_r in H.
-        rewrite H, firstn_app, Nat.sub_diag, firstn_all. cbn. apply app_nil_r. }
-      assert (Hsplit : bd_rq_rest c = body ++ skipn (length body) (bd_rq_rest c)).
-      { rewrite <- Hdd at 1. subst dd. symmetry. apply firstn_skipn. }
-      rewrite Hdd in Hstep.
-      destruct (length body =? 0)%nat eqn:E0; [apply Nat.eqb_eq in E0; destruct body; [congruence|discriminate]|].
-      rewrite Z.sub_diag in Hstep. cbn [Z.eqb] in Hstep.
-      destruct (bd_rq_deliver_inv i t body _ c Inv Hl Hsplit) as (Inv1 & Rest1).
-      eexists. exists (d' :: rem). split; [|split; [|split; [|split]]].
-      * constructor.
-        { eapply bd_rr_iter; [|apply bd_rr_refl]. apply bd_rq_iter_ok; [rewrite Hfn; exact Hstep| |reflexivity].
-          cbn. apply (bq_status _ _ Inv). }
-        { apply bd_inv_hsc. destruct Inv1 as [A B C D E F]. constructor; assumption. }
-        { destruct Cl as [Cl1 Cl2]. unfold bd_hsc. cbn [c_in_state c_in_state_previous set].
-          match goal with |- bd_rq_clean (if ?b then _ else _) => destruct b end; split; cbn; try lia; exact Cl2. }
-        { exact Hrem. }
-        { exists [mkev H_REQUEST_BODY_DATA i (Some body) false None]. unfold bd_hsc. cbn [c_in_state c_in_state_previous set].
-          match goal with |- context [if ?b then _ else _] => destruct b end;
-            (split; [reflexivity|split; [cbn; apply app_nil_r|reflexivity]]). }
-        { intros t0 Ht0. rewrite Hl in Ht0. inversion Ht0; subst t0.
-          eexists. split.
-          { unfold bd_hsc. cbn [c_in_state c_in_state_previous set].
-            match goal with |- context [if ?b then _ else _] => destruct b end;
-              (erewrite bd_slot_ext; [apply (bd_rq_deliver_slot i t body c Hl)|reflexivity|reflexivity]). }
-          cbn. split; lia. }
-      * unfold bd_hsc. cbn [c_in_state c_in_state_previous set]. match goal with |- context [if ?b then _ else _] => destruct b end; reflexivity.
-      * unfold bd_hsc. cbn [c_in_state c_in_state_previous set]. match goal with |- context [if ?b then _ else _] => destruct b end; cbn; rewrite Hleft; lia.
-      * assert (Hr : skipn (length body) (bd_rq_rest c) ++ concat (d' :: rem) = rest).
-        { rewrite Hsplit in Hw at 1. rewrite <- app_assoc in Hw. apply app_inv_head in Hw. exact Hw. }
-        rewrite <- Hr. f_equal. rewrite <- Rest1. unfold bd_hsc. cbn [c_in_state c_in_state_previous set].
-        match goal with |- context [if ?b then _ else _] => destruct b end; reflexivity.
-      * unfold bd_hsc. cbn [c_in_state c_in_state_previous set]. match goal with |- context [if ?b then _ else _] => destruct b end; reflexivity.
-    + (* the whole rest of the chunk belongs to the body; more follows in the next call *)
-      assert (Hdd : dd = bd_rq_rest c) by (subst dd; apply firstn_all2; lia).
-      destruct (bd_app_prefix (bd_rq_rest c) body (concat (d' :: rem)) rest Hw) as (body' & Hb & Hw'); [lia|].
-      assert (Hb'ne : body' <> []) by (intros ->; rewrite app_nil_r in Hb; rewrite Hb in Hgt; lia).
-      rewrite Hdd in Hstep.
-      destruct (length (bd_rq_rest c) =? 0)%nat eqn:E0.
-      * (* nothing left in this chunk *)
-        apply Nat.eqb_eq in E0. assert (Hnil : bd_rq_rest c = []) by (destruct (bd_rq_rest c); [reflexivity|discriminate]).
-        set (c1 := bd_req_begin d' (c <| c_in_status := c_HTP_STREAM_DATA |>)).
-        destruct (bd_begin_misc d' (c <| c_in_status := c_HTP_STREAM_DATA |>)) as (Ev & St & L1 & L2 & Bf & Sl).
-        destruct (IH c1 body rest) as (c' & rem' & Seg & S' & F' & W' & O'); auto.
-        { apply bd_inv_begin. apply bd_inv_status. exact Inv. }
-        { apply bd_begin_clean. apply Cl. }
-        { unfold c1. rewrite St. exact Hs. }
-        { unfold c1. rewrite L1. exact Hleft. }
-        { unfold c1. rewrite bd_begin_rest. rewrite Hnil in Hw. exact Hw. }
-        exists c', rem'. split; [|split; [exact S'|split; [exact F'|split; [exact W'|]]]].
-        { destruct Seg as [A B C D (evs & E1 & E2 & E3) H]. constructor; auto.
-          - eapply bd_rr_next; [|exact A]. apply bd_rq_iter_data; [rewrite Hfn; exact Hstep|apply (bq_rcv _ _ Inv)].
-          - exists evs. split; [rewrite E1; unfold c1; rewrite Ev; reflexivity|split; assumption].
-          - intros t0 Ht0. apply H. unfold c1. rewrite Sl. erewrite bd_slot_ext; [exact Ht0|reflexivity|reflexivity]. }
-        { rewrite O'. unfold c1. rewrite L2. reflexivity. }
-      * (* deliver the rest of the chunk, then the next call *)
-        apply Nat.eqb_neq in E0.
-        assert (Hlt : Z.of_nat (length body) - Z.of_nat (length (bd_rq_rest c)) =? 0 = false) by (apply Z.eqb_neq; lia).
-        rewrite Hlt in Hstep.
-        assert (Hsplit : bd_rq_rest c = bd_rq_rest c ++ []) by (symmetry; apply app_nil_r).
-        destruct (bd_rq_deliver_inv i t (bd_rq_rest c) [] c Inv Hl Hsplit) as (Inv1 & Rest1).
-        set (cd := (bd_rq_deliver i t (bd_rq_rest c) c) <| c_in_body_data_left ::= (fun l => l - Z.of_nat (length (bd_rq_rest c))) |>) in *.
-        assert (Invd : bd_rq_inv i cd) by (destruct Inv1 as [A B C D E F]; constructor; assumption).
-        set (c1 := bd_req_begin d' (cd <| c_in_status := c_HTP_STREAM_DATA |>)).
-        destruct (bd_begin_misc d' (cd <| c_in_status := c_HTP_STREAM_DATA |>)) as (Ev & St & L1 & L2 & Bf & Sl).
-        destruct (IH c1 body' rest) as (c' & rem' & Seg & S' & F' & W' & O'); auto.
-        { apply bd_inv_begin. apply bd_inv_status. exact Invd. }
-        { apply bd_begin_clean. apply Cl. }
-        { unfold c1. rewrite St. exact Hs. }
-        { unfold c1. rewrite L1. cbn. rewrite Hleft. rewrite Hb at 1. rewrite app_length. lia. }
-        { unfold c1. rewrite bd_begin_rest. exact Hw'. }
-        exists c', rem'. split; [|split; [exact S'|split; [exact F'|split; [exact W'|]]]].
-        { destruct Seg as [A B C D (evs & E1 & E2 & E3) H].
-          assert (Hsl : tx_slot c1 i = Some (t <| t_request_entity_len ::= Z.add (Z.of_nat (length (bd_rq_rest c))) |>
-                                               <| t_request_message_len ::= Z.add (Z.of_nat (length (bd_rq_rest c))) |>)).
-          { unfold c1. rewrite Sl. erewrite bd_slot_ext; [apply (bd_rq_deliver_slot i t (bd_rq_rest c) c Hl)|reflexivity|reflexivity]. }
-          constructor; auto.
-          - eapply bd_rr_next; [|exact A]. apply bd_rq_iter_data; [rewrite Hfn; exact Hstep|apply (bq_rcv _ _ Invd)].
-          - exists (evs ++ [mkev H_REQUEST_BODY_DATA i (Some (bd_rq_rest c)) false None]).
-            split; [rewrite E1; unfold c1; rewrite Ev; cbn; rewrite <- app_assoc; reflexivity|].
-            split; [rewrite bd_delivered_app, E2; cbn; rewrite app_nil_r; symmetry; exact Hb|].
-            rewrite bd_evs_app, E3. reflexivity.
-          - intros t0 Ht0. rewrite Hl in Ht0. inversion Ht0; subst t0.
-            destruct (H _ Hsl) as (t' & T1 & T2 & T3). exists t'. split; [exact T1|]. rewrite T2, T3. cbn.
-            assert (HL : length body = (length (bd_rq_rest c) + length body')%nat) by (rewrite Hb at 1; apply app_length).
-            rewrite HL, Nat2Z.inj_add. split; lia. }
-        { rewrite O'. unfold c1. rewrite L2. reflexivity. }
-Qed.
-
-(* ================= chunk data: REQ_BODY_CHUNKED_DATA fed any chunking of body ++ rest ================= *)
-Lemma bd_rq_chunkdata_seg i : forall rem c body rest,
-  bd_rq_inv i c -> bd_rq_clean c -> c_in_state c = REQ_BODY_CHUNKED_DATA ->
-  c_in_chunked_length c = Z.of_nat (length body) -> body <> [] ->
-  Forall (fun d => d <> []) rem ->
-  bd_rq_rest c ++ concat rem = body ++ rest ->
-  exists c' rem',
-    bd_rq_seg i c rem c' rem' body (Z.of_nat (length body)) /\
-    c_in_state c' = REQ_BODY_CHUNKED_DATA_END /\ c_in_chunked_length c' = 0 /\
-    bd_rq_rest c' ++ concat rem' = rest /\
-    c_in_body_data_left c' = c_in_body_data_left c.
-Proof.
-  induction rem as [|d' rem IH]; intros c body rest Inv Cl Hs Hleft Hne Hrem Hw.
-  all: assert (Hpos : 0 < c_in_chunked_length c) by (rewrite Hleft; destruct body; [congruence|cbn; lia]).
-  all: destruct (bq_live _ _ Inv) as (t & Hl & Hh).
-  all: pose proof (bd_rq_chunked_data_step i t c Inv Hl Hpos) as Hstep; cbv zeta in Hstep; rewrite Hleft, Nat2Z.id in Hstep.
-  all: set (dd := firstn (length body) (bd_rq_rest c)) in *.
-  all: assert (Hfn : rq_state_fn cb g (c_in_state c) c = REQ_BODY_CHUNKED_DATA_fn cb c) by (rewrite Hs; reflexivity).
-  - (* last TCP chunk: the body must end inside it *)
-    cbn [concat] in Hw. rewrite app_nil_r in Hw.
-    assert (Hdd : dd = body) by (subst dd; rewrite Hw, firstn_app, Nat.sub_diag, firstn_all; cbn; apply app_nil_r).
-    rewrite Hdd in Hstep.
-    destruct (length body =? 0)%nat eqn:E0; [apply Nat.eqb_eq in E0; destruct body; [congruence|discriminate]|].
-    rewrite Z.sub_diag in Hstep. cbn [Z.eqb] in Hstep.
-    destruct (bd_rq_deliver_inv i t body rest c Inv Hl Hw) as (Inv1 & Rest1).
-    eexists. exists []. split; [|split; [|split; [|split]]].
-    + constructor.
-      * eapply bd_rr_iter; [|apply bd_rr_refl]. apply bd_rq_iter_ok; [rewrite Hfn; exact Hstep| |reflexivity].
-        cbn. apply (bq_status _ _ Inv).
-      * apply bd_inv_hsc. destruct Inv1 as [A B C D E F]. constructor; assumption.
-      * destruct Cl as [Cl1 Cl2]. unfold bd_hsc. cbn [c_in_state c_in_state_previous set].
-        match goal with |- bd_rq_clean (if ?b then _ else _) => destruct b end; split; cbn; try lia; exact Cl2.
-      * constructor.
-      * exists [mkev H_REQUEST_BODY_DATA i (Some body) false None]. unfold bd_hsc. cbn [c_in_state c_in_state_previous set].
-        match goal with |- context [if ?b then _ else _] => destruct b end;
-          (split; [reflexivity|split; [cbn; apply app_nil_r|reflexivity]]).
-      * intros t0 Ht0. rewrite Hl in Ht0. inversion Ht0; subst t0.
-        eexists. split.
-        { unfold bd_hsc. cbn [c_in_state c_in_state_previous set].
-          match goal with |- context [if ?b then _ else _] => destruct b end;
-            (erewrite bd_slot_ext; [apply (bd_rq_deliver_slot i t body c Hl)|reflexivity|reflexivity]). }
-        cbn. split; lia.
-    + unfold bd_hsc. cbn [c_in_state c_in_state_previous set]. match goal with |- context [if ?b then _ else _] => destruct b end; reflexivity.
-    + unfold bd_hsc. cbn [c_in_state c_in_state_previous set]. match goal with |- context [if ?b then _ else _] => destruct b end; cbn; rewrite Hleft; lia.
-    + cbn [concat]. rewrite app_nil_r. rewrite <- Rest1. unfold bd_hsc. cbn [c_in_state c_in_state_previous set].
-      match goal with |- context [if ?b then _ else _] => destruct b end; reflexivity.
-    + unfold bd_hsc. cbn [c_in_state c_in_state_previous set]. match goal with |- context [if ?b then _ else _] => destruct b end; reflexivity.
-  - inversion Hrem as [|? ? Hd' Hrem']; subst.
-    destruct (Nat.le_gt_cases (length body) (length (bd_rq_rest c))) as [Hle|Hgt].
-    + (* the body ends inside the current chunk *)
-      assert (Hdd : dd = body).
-      { subst dd. assert (firstn (length body) (bd_rq_rest c ++ concat (d' :: rem)) = firstn (length body) (body ++ rest)) by (rewrite Hw; reflexivity).
-        rewrite firstn_app in H. replace (length body - length (bd_rq_rest c))%nat with 0%nat in H by lia. cbn [firstn] in H. rewrite app_nil_r in H.
-        rewrite H, firstn_app, Nat.sub_diag, firstn_all. cbn. apply app_nil_r. }
-      assert (Hsplit : bd_rq_rest c = body ++ skipn (length body) (bd_rq_rest c)).
-      { rewrite <- Hdd at 1. subst dd. symmetry. apply firstn_skipn. }
-      rewrite Hdd in Hstep.
-      destruct (length body =? 0)%nat eqn:E0; [apply Nat.eqb_eq in E0; destruct body; [congruence|discriminate]|].
-      rewrite Z.sub_diag in Hstep. cbn [Z.eqb] in Hstep.
-      destruct (bd_rq_deliver_inv i t body _ c Inv Hl Hsplit) as (Inv1 & Rest1).
-      eexists. exists (d' :: rem). split; [|split; [|split; [|split]]].
-      * constructor.
-        { eapply bd_rr_iter; [|apply bd_rr_refl]. apply bd_rq_iter_ok; [rewrite Hfn; exact Hstep| |reflexivity].
-          cbn. apply (bq_status _ _ Inv). }
-        { apply bd_inv_hsc. destruct Inv1 as [A B C D E F]. constructor; assumption. }
-        { destruct Cl as [Cl1 Cl2]. unfold bd_hsc. cbn [c_in_state c_in_state_previous set].
-          match goal with |- bd_rq_clean (if ?b then _ else _) => destruct b end; split; cbn; try lia; exact Cl2. }
-        { exact Hrem. }
-        { exists [mkev H_REQUEST_BODY_DATA i (Some body) false None]. unfold bd_hsc. cbn [c_in_state c_in_state_previous set].
-          match goal with |- context [if ?b then _ else _] => destruct b end;
-            (split; [reflexivity|split; [cbn; apply app_nil_r|reflexivity]]). }
-        { intros t0 Ht0. rewrite Hl in Ht0. inversion Ht0; subst t0.
-          eexists. split.
-          { unfold bd_hsc. cbn [c_in_state c_in_state_previous set].
-            match goal with |- context [if ?b then _ else _] => destruct b end;
-              (erewrite bd_slot_ext; [apply (bd_rq_deliver_slot i t body c Hl)|reflexivity|reflexivity]). }
-          cbn. split; lia. }
-      * unfold bd_hsc. cbn [c_in_state c_in_state_previous set]. match goal with |- context [if ?b then _ else _] => destruct b end; reflexivity.
-      * unfold bd_hsc. cbn [c_in_state c_in_state_previous set]. match goal with |- context [if ?b then _ else _] => destruct b end; cbn; rewrite Hleft; lia.
-      * assert (Hr : skipn (length body) (bd_rq_rest c) ++ concat (d' :: rem) = rest).
-        { rewrite Hsplit in Hw at 1. rewrite <- app_assoc in Hw. apply app_inv_head in Hw. exact Hw. }
-        rewrite <- Hr. f_equal. rewrite <- Rest1. unfold bd_hsc. cbn [c_in_state c_in_state_previous set].
-        match goal with |- context [if ?b then _ else _] => destruct b end; reflexivity.
-      * unfold bd_hsc. cbn [c_in_state c_in_state_previous set]. match goal with |- context [if ?b then _ else _] => destruct b end; reflexivity.
-    + (* the whole rest of the chunk belongs to the body; more follows in the next call *)
-      assert (Hdd : dd = bd_rq_rest c) by (subst dd; apply firstn_all2; lia).
-      destruct (bd_app_prefix (bd_rq_rest c) body (concat (d' :: rem)) rest Hw) as (body' & Hb & Hw'); [lia|].
-      assert (Hb'ne : body' <> []) by (intros ->; rewrite app_nil_r in Hb; rewrite Hb in Hgt; lia).
-      rewrite Hdd in Hstep.
-      destruct (length (bd_rq_rest c) =? 0)%nat eqn:E0.
-      * (* nothing left in this chunk *)
-        apply Nat.eqb_eq in E0. assert (Hnil : bd_rq_rest c = []) by (destruct (bd_rq_rest c); [reflexivity|discriminate]).
-        set (c1 := bd_req_begin d' (c <| c_in_status := c_HTP_STREAM_DATA |>)).
-        destruct (bd_begin_misc d' (c <| c_in_status := c_HTP_STREAM_DATA |>)) as (Ev & St & L1 & L2 & Bf & Sl).
-        destruct (IH c1 body rest) as (c' & rem' & Seg & S' & F' & W' & O'); auto.
-        { apply bd_inv_begin. apply bd_inv_status. exact Inv. }
-        { apply bd_begin_clean. apply Cl. }
-        { unfold c1. rewrite St. exact Hs. }
-        { unfold c1. rewrite L2. exact Hleft. }
-        { unfold c1. rewrite bd_begin_rest. rewrite Hnil in Hw. exact Hw. }
-        exists c', rem'. split; [|split; [exact S'|split; [exact F'|split; [exact W'|]]]].
-        { destruct Seg as [A B C D (evs & E1 & E2 & E3) H]. constructor; auto.
-          - eapply bd_rr_next; [|exact A]. apply bd_rq_iter_data; [rewrite Hfn; exact Hstep|apply (bq_rcv _ _ Inv)].
-          - exists evs. split; [rewrite E1; unfold c1; rewrite Ev; reflexivity|split; assumption].
-          - intros t0 Ht0. apply H. unfold c1. rewrite Sl. erewrite bd_slot_ext; [exact Ht0|reflexivity|reflexivity]. }
-        { rewrite O'. unfold c1. rewrite L1. reflexivity. }
-      * (* deliver the rest of the chunk, then the next call *)
-        apply Nat.eqb_neq in E0.
-        assert (Hlt : Z.of_nat (length body) - Z.of_nat (length (bd_rq_rest c)) =? 0 = false) by (apply Z.eqb_neq; lia).
-        rewrite Hlt in Hstep.
-        assert (Hsplit : bd_rq_rest c = bd_rq_rest c ++ []) by (symmetry; apply app_nil_r).
-        destruct (bd_rq_deliver_inv i t (bd_rq_rest c) [] c Inv Hl Hsplit) as (Inv1 & Rest1).
-        set (cd := (bd_rq_deliver i t (bd_rq_rest c) c) <| c_in_chunked_length ::= (fun l => l - Z.of_nat (length (bd_rq_rest c))) |>) in *.
-        assert (Invd : bd_rq_inv i cd) by (destruct Inv1 as [A B C D E F]; constructor; assumption).
-        set (c1 := bd_req_begin d' (cd <| c_in_status := c_HTP_STREAM_DATA |>)).
-        destruct (bd_begin_misc d' (cd <| c_in_status := c_HTP_STREAM_DATA |>)) as (Ev & St & L1 & L2 & Bf & Sl).
-        destruct (IH c1 body' rest) as (c' & rem' & Seg & S' & F' & W' & O'); auto.
-        { apply bd_inv_begin. apply bd_inv_status. exact Invd. }
-        { apply bd_begin_clean. apply Cl. }
-        { unfold c1. rewrite St. exact Hs. }
-        { unfold c1. rewrite L2. cbn. rewrite Hleft. rewrite Hb at 1. rewrite app_length. lia. }
-        { unfold c1. rewrite bd_begin_rest. exact Hw'. }
-        exists c', rem'. split; [|split; [exact S'|split; [exact F'|split; [exact W'|]]]].
-        { destruct Seg as [A B C D (evs & E1 & E2 & E3) H].
-          assert (Hsl : tx_slot c1 i = Some (t <| t_request_entity_len ::= Z.add (Z.of_nat (length (bd_rq_rest c))) |>
-                                               <| t_request_message_len ::= Z.add (Z.of_nat (length (bd_rq_rest c))) |>)).
-          { unfold c1. rewrite Sl. erewrite bd_slot_ext; [apply (bd_rq_deliver_slot i t (bd_rq_rest c) c Hl)|reflexivity|reflexivity]. }
-          constructor; auto.
-          - eapply bd_rr_next; [|exact A]. apply bd_rq_iter_data; [rewrite Hfn; exact Hstep|apply (bq_rcv _ _ Invd)].
-          - exists (evs ++ [mkev H_REQUEST_BODY_DATA i (Some (bd_rq_rest c)) false None]).
-            split; [rewrite E1; unfold c1; rewrite Ev; cbn; rewrite <- app_assoc; reflexivity|].
-            split; [rewrite bd_delivered_app, E2; cbn; rewrite app_nil_r; symmetry; exact Hb|].
-            rewrite bd_evs_app, E3. reflexivity.
-          - intros t0 Ht0. rewrite Hl in Ht0. inversion Ht0; subst t0.
-            destruct (H _ Hsl) as (t' & T1 & T2 & T3). exists t'. split; [exact T1|]. rewrite T2, T3. cbn.
-            assert (HL : length body = (length (bd_rq_rest c) + length body')%nat) by (rewrite Hb at 1; apply app_length).
-            rewrite HL, Nat2Z.inj_add. split; lia. }
-        { rewrite O'. unfold c1. rewrite L1. reflexivity. }
-Qed.
-
-(* ================= byte loops: closed forms ================= *)
-Definition bd_olist (o : option bytes) : bytes := match o with Some b => b | None => [] end.
-(* k bytes copied (IN_COPY_BYTE): read offset advanced, in_next_byte = the last one *)
-Definition bd_rq_copied (k : nat) (nb : option N) (c : connp) : connp :=
-  rq_set_in (fun cur => cur <| k_next_byte := nb |> <| k_read := (k_read cur + k)%nat |>) c.
-(* k bytes taken (IN_NEXT_BYTE): read and consume offsets advanced *)
-Definition bd_rq_taken (k : nat) (nb : option N) (c : connp) : connp :=
-  rq_set_in (fun cur => cur <| k_next_byte := nb |> <| k_read := (k_read cur + k)%nat |> <| k_consume := (k_consume cur + k)%nat |>) c.
-
-Lemma bd_cursor_eta (a b : cursor) :
-  k_data a = k_data b -> k_len a = k_len b -> k_read a = k_read b -> k_consume a = k_consume b -> k_receiver a = k_receiver b ->
-  k_next_byte a = k_next_byte b -> k_buf a = k_buf b -> k_header a = k_header b -> k_receiver_hook a = k_receiver_hook b -> a = b.
-Proof. destruct a, b; cbn; intros; subst; reflexivity. Qed.
-
-Lemma bd_set_in_set_in f h c : rq_set_in f (rq_set_in h c) = rq_set_in (fun k => f (h k)) c.
-Proof. destruct c; reflexivity. Qed.
-Lemma bd_set_in_ext f h c : f (c_in c) = h (c_in c) -> rq_set_in f c = rq_set_in h c.
-Proof. intros H. destruct c; unfold rq_set_in, set; cbn in *. rewrite H. reflexivity. Qed.
-Lemma bd_rq_copied_copied k nb b c : bd_rq_copied 1 (Some b) (bd_rq_copied k nb c) = bd_rq_copied (S k) (Some b) c.
-Proof.
-  unfold bd_rq_copied. rewrite bd_set_in_set_in. apply bd_set_in_ext. apply bd_cursor_eta; cbn; try reflexivity. lia.
-Qed.
-Lemma bd_rq_taken_taken k nb b c : bd_rq_taken 1 (Some b) (bd_rq_taken k nb c) = bd_rq_taken (S k) (Some b) c.
-Proof.
-  unfold bd_rq_taken. rewrite bd_set_in_set_in. apply bd_set_in_ext. apply bd_cursor_eta; cbn; try reflexivity; lia.
-Qed.
-
-Lemma bd_rest_cons c b tl : bd_rq_rest c = b :: tl ->
-  (exists d, k_data (c_in c) = Some d /\ k_len (c_in c) = length d) ->
-  rq_at_end c = false /\ rq_read_byte c = (c, b).
-Proof.
-  intros H (d & Hd & Hl). unfold bd_rq_rest in H. rewrite Hd in H. unfold rq_at_end, rq_read_byte. rewrite Hd, Hl.
-  assert (L : (k_read (c_in c) < length d)%nat).
-  { destruct (Nat.lt_ge_cases (k_read (c_in c)) (length d)); [assumption|]. rewrite skipn_all2 in H by lia. discriminate. }
-  split; [apply Nat.leb_gt; exact L|].
-  assert (nth_error d (k_read (c_in c)) = Some b).
-  { rewrite <- (firstn_skipn (k_read (c_in c)) d) at 1. rewrite nth_error_app2; rewrite firstn_length; [|lia].
-    replace (k_read (c_in c) - Nat.min (k_read (c_in c)) (length d))%nat with 0%nat by lia. rewrite H. reflexivity. }
-  rewrite H0. reflexivity.
-Qed.
-Lemma bd_rest_nil c : bd_rq_rest c = [] ->
-  (exists d, k_data (c_in c) = Some d /\ k_len (c_in c) = length d /\ (k_read (c_in c) <= length d)%nat) -> rq_at_end c = true.
-Proof.
-  intros H (d & Hd & Hl & Hr). unfold bd_rq_rest in H. rewrite Hd in H. unfold rq_at_end. rewrite Hl. apply Nat.leb_le.
-  assert (length (skipn (k_read (c_in c)) d) = 0%nat) by (rewrite H; reflexivity). rewrite skipn_length in H0. lia.
-Qed.
-Lemma bd_rq_copy_byte c b tl : bd_rq_rest c = b :: tl ->
-  (exists d, k_data (c_in c) = Some d /\ k_len (c_in c) = length d) ->
-  rq_copy_byte c = Some (bd_rq_copied 1 (Some b) c).
-Proof.
-  intros H Hd. destruct (bd_rest_cons c b tl H Hd) as (A & B). unfold rq_copy_byte. rewrite A, B.
-  unfold bd_rq_copied. f_equal. apply bd_set_in_ext. apply bd_cursor_eta; cbn; try reflexivity. lia.
-Qed.
-Lemma bd_rq_next_byte c b tl : bd_rq_rest c = b :: tl ->
-  (exists d, k_data (c_in c) = Some d /\ k_len (c_in c) = length d) ->
-  rq_next_byte c = Some (bd_rq_taken 1 (Some b) c).
-Proof.
-  intros H Hd. destruct (bd_rest_cons c b tl H Hd) as (A & B). unfold rq_next_byte. rewrite A, B.
-  unfold bd_rq_taken. f_equal. apply bd_set_in_ext. apply bd_cursor_eta; cbn; try reflexivity; lia.
-Qed.
-Lemma bd_rq_rest_copied k nb c tl pre :
-  bd_rq_rest c = pre ++ tl -> length pre = k -> bd_rq_rest (bd_rq_copied k nb c) = tl.
-Proof.
-  intros H L. unfold bd_rq_rest in *. cbn. destruct (k_data (c_in c)) as [d|].
-  - rewrite <- bd_skipn_skipn, H, skipn_app, <- L, Nat.sub_diag, skipn_all. reflexivity.
-  - destruct pre; [cbn in *; subst; reflexivity|discriminate].
-Qed.
-Lemma bd_rq_rest_taken k nb c tl pre :
-  bd_rq_rest c = pre ++ tl -> length pre = k -> bd_rq_rest (bd_rq_taken k nb c) = tl.
-Proof. apply bd_rq_rest_copied. Qed.
-Lemma bd_data_copied k nb c x : k_data (c_in c) = x -> k_data (c_in (bd_rq_copied k nb c)) = x. Proof. auto. Qed.
-
-(* the continuation of REQ_BODY_CHUNKED_LENGTH once the LF has been copied *)
-Definition bd_rq_line_done (c : connp) : st * connp :=
-  match req_consolidate_data g c with
-  | (ST_OK, c, data) =>
-    let c := rq_tx_upd (fun t => t <| t_request_message_len ::= Z.add (Z.of_nat (length data)) |>) c in
-    let '(v, _) := parse_chunked_length (htp_chomp data) in
-    let c := req_clear_buffer (c <| c_in_chunked_length := v |>) in
-    if 0 <? v then (ST_OK, c <| c_in_state := REQ_BODY_CHUNKED_DATA |>)
-    else if v =? 0 then
-      (ST_OK, rq_tx_upd (fun t => t <| t_request_progress := c_HTP_REQUEST_TRAILER |>) (c <| c_in_state := REQ_HEADERS |>))
-    else (ST_ERROR, c)
-  | (_, c, _) => (ST_ERROR, c)
-  end.
-
-Lemma bd_rq_length_loop : forall pre c n tl,
-  (exists d, k_data (c_in c) = Some d /\ k_len (c_in c) = length d /\ (k_read (c_in c) <= length d)%nat) ->
-  bd_rq_rest c = pre ++ tl -> bd_no_lf pre = true -> (length (bd_rq_rest c) <= n)%nat ->
-  REQ_BODY_CHUNKED_LENGTH_loop g n c =
-    match tl with
-    | [] => (ST_DATA_BUFFER, match pre with [] => c | _ => bd_rq_copied (length pre) (Some (last pre 0%N)) c end)
-    | b :: _ => if (b =? LF)%N then bd_rq_line_done (bd_rq_copied (S (length pre)) (Some b) c)
-                else REQ_BODY_CHUNKED_LENGTH_loop g n c
-    end.
-Proof.
-  induction pre as [|a pre IH]; intros c n tl Hd Hr Hnl Hn.
-  - cbn [app] in Hr. destruct tl as [|b tl].
-    + destruct n; cbn [REQ_BODY_CHUNKED_LENGTH_loop]; unfold rq_copy_byte; rewrite (bd_rest_nil c Hr Hd); reflexivity.
-    + destruct (b =? LF)%N eqn:Eb; [|reflexivity].
-      assert (Hd' : exists d, k_data (c_in c) = Some d /\ k_len (c_in c) = length d) by (destruct Hd as (d & A & B & _); eauto).
-      destruct n; cbn [REQ_BODY_CHUNKED_LENGTH_loop]; rewrite (bd_rq_copy_byte c b tl Hr Hd');
-        unfold rq_next_is; cbn [bd_rq_copied rq_set_in c_in set k_next_byte]; cbn; rewrite Eb; reflexivity.
-  - cbn [app] in Hr. cbn [bd_no_lf forallb] in Hnl. apply andb_true_iff in Hnl. destruct Hnl as (Ha & Hnl).
-    assert (Hd' : exists d, k_data (c_in c) = Some d /\ k_len (c_in c) = length d) by (destruct Hd as (d & A & B & _); eauto).
-    rewrite Hr in Hn. cbn [length] in Hn. destruct n as [|n]; [lia|].
-    cbn [REQ_BODY_CHUNKED_LENGTH_loop]. rewrite (bd_rq_copy_byte c a _ Hr Hd').
-    assert (Hna : rq_next_is (bd_rq_copied 1 (Some a) c) LF = false).
-    { unfold rq_next_is. cbn. apply negb_true_iff in Ha. exact Ha. }
-    rewrite Hna.
-    assert (Hr1 : bd_rq_rest (bd_rq_copied 1 (Some a) c) = pre ++ tl) by (apply (bd_rq_rest_copied 1 _ c _ [a]); [exact Hr|reflexivity]).
-    assert (Hd1 : exists d, k_data (c_in (bd_rq_copied 1 (Some a) c)) = Some d /\ k_len (c_in (bd_rq_copied 1 (Some a) c)) = length d /\
-                            (k_read (c_in (bd_rq_copied 1 (Some a) c)) <= length d)%nat).
-    { destruct Hd as (d & A & B & C). exists d. cbn. repeat split; auto.
-      unfold bd_rq_rest in Hr. rewrite A in Hr.
-      assert (length (skipn (k_read (c_in c)) d) = length (a :: pre ++ tl)) by (rewrite Hr; reflexivity).
-      rewrite skipn_length in H. cbn in H. lia. }
-    rewrite (IH _ n tl Hd1 Hr1 Hnl); [|rewrite Hr1; lia].
-    destruct tl as [|b tl'].
-    + f_equal. destruct pre as [|p pre'].
-      * reflexivity.
-      * rewrite bd_rq_copied_copied. cbn [length]. f_equal. 
-    + destruct (b =? LF)%N eqn:Eb.
-      * rewrite bd_rq_copied_copied. reflexivity.
-      * (* unreachable shape: kept as the loop itself *)
-        cbn [REQ_BODY_CHUNKED_LENGTH_loop]. rewrite (bd_rq_copy_byte c a _ Hr Hd'). rewrite Hna. reflexivity.
+  intros Inv Hl Hn n dd. pose proof (bd_rq_chunked_data_step i t c Inv Hl Hn) as H. cbv zeta in H. fold n in H. fold dd in H.
+  split.
+  - intros E. rewrite E in H. exact H.
+  - intros E. assert (E0 : (length dd =? 0)%nat = false) by (apply Nat.eqb_neq; destruct dd; [congruence|discriminate]).
+    rewrite E0 in H.
+    assert (Hst : bd_rq_stepped i t dd c (bd_rq_deliver i t dd c)).
+    { apply (bd_rq_deliver_stepped i t dd (skipn (Z.to_nat n) (bd_rq_rest c))); auto. symmetry. apply firstn_skipn. }
+    set (X := bd_rq_deliver i t dd c) in *.
+    assert (HX : c_in_chunked_length X = n /\ c_in_state X = c_in_state c /\ c_in_body_data_left X = c_in_body_data_left c) by (repeat split).
+    clearbody X. destruct HX as (X1 & X2 & X3).
+    destruct (n - Z.of_nat (length dd) =? 0); eexists; (split; [exact H|]); (split; [|split; [|split]]).
+    + eapply bd_stepped_eqv; [|exact Hst]. eapply bd_eqv_trans; [apply bd_eqv_set_chunked|apply bd_eqv_set_state].
+    + cbn. rewrite X1. reflexivity.
+    + reflexivity.
+    + cbn. exact X3.
+    + eapply bd_stepped_eqv; [|exact Hst]. apply bd_eqv_set_chunked.
+    + cbn. rewrite X1. reflexivity.
+    + cbn. exact X2.
+    + cbn. exact X3.
 Qed.
 End Req.
